@@ -44,7 +44,12 @@ LEVEL_NOTE = ("floating-point rounding is not modelled (tolerance run); no _part
               "cancellation noise of finding K9 (property C02) and whose endpoints stay above z_uniform with rho >= "
               "0.15 |dz| + 5 m; an endpoint exactly on a range bound gives a zero-length leg whose direction / Fresnel "
               "angle is 0/0 (points, length, tof compared only); C18_build_path_complete is proved for every "
-              "max_reflections (the design asked for <= 2); completeness of the layered solution set is a search/correspondence "
+              "max_reflections (the design asked for <= 2); hypothesis audit: C18_uniform_directions needs first and last leg > 0 - "
+              "on the excluded set the code is wrong (K22: endpoint on the reflecting bound, zero-thickness layer; negation "
+              "C18_emitted_zero_on_boundary) or raises (both endpoints on the bound: ValueError, C18_points_reject_zero_angle, "
+              "checked); C18_snell_at_boundary's two = false is lifted by C18_step_two_group, theta != pi/2 by "
+              "C18_horizontal_radial; identical endpoints / both endpoints on one cut give a duplicated solution (K23); "
+              "_build_path with level > max_level does not terminate (model: no path; RecursionError checked); completeness of the layered solution set is a search/correspondence "
               "class only (brentq and the 1-degree launch-angle grid are not modelled): two roots inside one grid cell, e.g. at "
               "the indirect_r_max edge, are outside the sampled classes")
 ASSUMPTIONS = ["scipy.constants.c = 299792458 m/s is hard-coded in twin/Uniform.body (the tof comparison notices a change)",
@@ -87,7 +92,7 @@ def rand_uice(run, im):
 def rand_pair(run, lo, hi, kind=None):
     """endpoints strictly inside (lo,hi) unless a special kind says otherwise"""
     r = run.rng
-    kind = kind or r.choice(["general"] * 6 + ["far", "vertical", "level", "outside", "boundary", "same", "intform", "intform"])
+    kind = kind or r.choice(["general"] * 6 + ["far", "vertical", "level", "outside", "boundary", "boundary", "both-on-bound", "same", "intform", "intform"])
     span = hi - lo
     z0 = lo + span * r.uniform(0.02, 0.98)
     z1 = lo + span * r.uniform(0.02, 0.98)
@@ -110,6 +115,8 @@ def rand_pair(run, lo, hi, kind=None):
             A[2] = r.choice([lo, hi])
         else:
             B[2] = r.choice([lo, hi])
+    elif kind == "both-on-bound":
+        A[2] = B[2] = r.choice([lo, hi])
     elif kind == "same":
         B = list(A)
     elif kind == "intform":
@@ -119,6 +126,17 @@ def rand_pair(run, lo, hi, kind=None):
         if (A[0], A[1]) == (B[0], B[1]):
             B[0] += 7
     return kind, [float(v) for v in A], [float(v) for v in B]
+
+
+def zero_legs(lo, hi, zA, zB, refl, up):
+    """(first leg empty, last leg empty): an endpoint lying exactly on the bound the reflected path leaves it for /
+    arrives from (class of finding K22)"""
+    if refl < 1:
+        return False, False
+    first = (zA == hi) if up else (zA == lo)
+    last_up = up if (refl - 1) % 2 == 0 else (not up)      # direction of travel before the last reflection
+    last = (zB == hi) if last_up else (zB == lo)
+    return bool(first), bool(last)
 
 
 INT_FORMS = ["int-tuple", "int-list", "int64"]
@@ -174,7 +192,7 @@ def corr_uniform(run):
     for i in range(n):
         ice = rand_uice(run, im)
         kind, A, B = rand_pair(run, *ice.valid_range)
-        maxref = run.rng.choice([0, 1, 2, 3, 3])
+        maxref = run.rng.choice([0, 1, 2, 3, 3, 3, 4, 6])
         form = run.rng.choice(INT_FORMS) if kind == "intform" else None
         tr, sols = uniform_impl(rt, ice, as_form(A, form), as_form(B, form), maxref)
         run.count("uniform_" + kind)
@@ -228,10 +246,16 @@ def corr_uniform(run):
                 bad = "points refl=%d model=%s impl=%s" % (s["refl"], g[:npt], want[:npt])
             elif not fw.all_close(g[npt:npt + 2], want[npt:npt + 2], 1e-11, 0.0):
                 bad = "length/tof refl=%d model=%s impl=%s" % (s["refl"], g[npt:npt + 2], want[npt:npt + 2])
-            elif kind == "boundary":
-                # an endpoint on a range bound makes a leg of zero length: its direction and its Fresnel angle are
-                # 0/0 up to rounding, only points, length and tof are compared
-                pass
+            elif any(zero_legs(ice.valid_range[0], ice.valid_range[1], A[2], B[2], s["refl"], s["theta"] > 0)):
+                # K22: a leg of zero length next to an endpoint on the reflecting bound: its direction is 0/0 (zero vector
+                # or normalised rounding noise) and the Fresnel angle NaN; the other direction is still compared
+                z1, z2 = zero_legs(ice.valid_range[0], ice.valid_range[1], A[2], B[2], s["refl"], s["theta"] > 0)
+                run.known_finding("K22")
+                run.count("K22_zero_leg")
+                if not z1 and not fw.all_close(g[npt + 2:npt + 5], want[npt + 2:npt + 5], 1e-9, 1e-11):
+                    bad = "emitted direction refl=%d model=%s impl=%s" % (s["refl"], g[npt + 2:npt + 5], want[npt + 2:npt + 5])
+                if not z2 and not fw.all_close(g[npt + 5:], want[npt + 5:], 1e-9, 1e-11):
+                    bad = "received direction refl=%d model=%s impl=%s" % (s["refl"], g[npt + 5:], want[npt + 5:])
             elif not fw.all_close(g[npt + 2:], want[npt + 2:], 1e-9, 1e-11):
                 bad = "directions refl=%d model=%s impl=%s" % (s["refl"], g[npt + 2:], want[npt + 2:])
             else:
@@ -429,7 +453,8 @@ def split_params(run, kind):
         be = r.choice([None, r.uniform(1.0, 2.4)])
         zA, zB = r.uniform(lo * 0.9, -5), r.uniform(lo * 0.9, -5)
         cuts = sorted({round(r.uniform(lo * 0.95, -2), 3) for _ in range(ncut)}, reverse=True)
-        params = {"n": n, "lo": lo, "above": ab, "below": be, "cuts": cuts, "subclass": r.random() < 0.3}
+        params = {"n": n, "lo": lo, "above": ab, "below": be, "cuts": cuts, "subclass": r.random() < 0.3,
+                  "zero_layer": r.random() < 0.15}
     else:
         # endpoints above z_uniform (-764 m) and not near-vertical: below / steeper than that the one-medium tracer
         # itself is only approximate (deep-ice uniform index, small-beta cancellation: property C01)
@@ -464,6 +489,8 @@ def split_build(data):
             U = SlabIce
         full = im.UniformIce(n, valid_range=(lo, 0.0), index_above=ab, index_below=be)
         edges = [0.0] + cuts + [lo]
+        if params.get("zero_layer") and cuts:
+            edges = [0.0] + [cuts[0]] + cuts + [lo]        # a layer of zero thickness at the first cut
         layers = [U(n, valid_range=(edges[i + 1], edges[i]), index_above=None, index_below=None)
                   for i in range(len(edges) - 1)]
         lice = LayeredIce(layers, index_above=ab, index_below=be)
@@ -543,6 +570,7 @@ def check_split(run, kind, report, data=None):
     for u in us:
         ul, ut = float(u.path_length), float(u.tof)
         E = cancellation_noise(u)
+        uln = max(ul, 1e-3)       # identical endpoints: zero-length path
         best = None
         for j, l in enumerate(ls):
             if j in used:
@@ -558,12 +586,12 @@ def check_split(run, kind, report, data=None):
             return False
         l = ls[best[1]]
         used.add(best[1])
-        if abs(float(l.tof) - ut) > ((1e-9 if kind == "uniform" else 2e-6) + 25 * E / ul) * ut:
+        if abs(float(l.tof) - ut) > ((1e-9 if kind == "uniform" else 2e-6) + 25 * E / uln) * ut + 1e-18:
             report("split-tof", data, observed=float(l.tof), expected=ut, what="time of flight of the split medium differs")
             return False
         e1, e2 = np.asarray(u.emitted_direction, float), np.asarray(l.emitted_direction, float)
         r1, r2 = np.asarray(u.received_direction, float), np.asarray(l.received_direction, float)
-        dtol = (1e-7 if kind == "uniform" else 1e-5) + 10 * E / ul
+        dtol = (1e-7 if kind == "uniform" else 1e-5) + 10 * E / uln
         if np.max(np.abs(e1 - e2)) > dtol or np.max(np.abs(r1 - r2)) > dtol:
             report("split-direction", data, observed=[fls(e2), fls(r2)], expected=[fls(e1), fls(r1)],
                    what="emitted/received direction of the split medium differs")
@@ -581,7 +609,13 @@ def check_split(run, kind, report, data=None):
                 return False
         # unit transmission: the layered Fresnel product equals the unsplit path's own factor
         fu, fl_ = u.fresnel, l.fresnel
-        if max(abs(complex(fu[0]) - complex(fl_[0])), abs(complex(fu[1]) - complex(fl_[1]))) > (1e-7 if kind == "uniform" else 1e-5) + 10 * E / ul:
+        if params.get("zero_layer") and run.finding_for("K22"):
+            # K22 (zero-length leg): a layer of zero thickness gives a sub-path without direction; only the Fresnel
+            # product is excused, geometry / length / tof / directions above were compared
+            run.known_finding("K22")
+            run.count("K22_zero_layer")
+            continue
+        if max(abs(complex(fu[0]) - complex(fl_[0])), abs(complex(fu[1]) - complex(fl_[1]))) > (1e-7 if kind == "uniform" else 1e-5) + 10 * E / uln:
             report("split-transmission", data, observed=[complex(fl_[0]), complex(fl_[1])], expected=[complex(fu[0]), complex(fu[1])],
                    what="crossing an artificial cut changes the amplitude (transmission factor is not 1)")
             return False
@@ -590,6 +624,16 @@ def check_split(run, kind, report, data=None):
             continue
         f = l.fresnel
         run.count("split_surplus")
+        inner = [float(z) for z in lice.boundaries[1:-1]]
+        k23_geometry = list(A) == list(B) or (A[2] == B[2] and any(A[2] == z for z in inner))
+        twin = [m for m in used if abs(float(ls[m].path_length) - float(l.path_length)) <= 1e-6
+                and abs(float(ls[m].tof) - float(l.tof)) <= 1e-9 * float(l.tof) + 1e-14
+                and max(abs(complex(ls[m].fresnel[0]) - complex(f[0])), abs(complex(ls[m].fresnel[1]) - complex(f[1]))) < 1e-9]
+        if k23_geometry and twin and run.finding_for("K23"):
+            # K23: the same degenerate path listed twice with full amplitude (identical endpoints / both on one cut)
+            run.known_finding("K23")
+            run.count("K23_duplicate")
+            continue
         if not cut_reflection(l, lice) or max(abs(complex(f[0])), abs(complex(f[1]))) > 1e-6:
             report("split-surplus", data, observed={"len": float(l.path_length), "fresnel": [complex(f[0]), complex(f[1])],
                                                     "walk": [lice.layers.index(sp.ice) for sp in l.paths]},
@@ -624,6 +668,25 @@ def corpus(run):
     """regression input of the repaired defect F18: reflection off the lower boundary of a gradient-index layer must be a
     mirror reflection at the ARRIVAL angle (before the repair the sub-path angles were 113.49 deg then 66.51 deg)"""
     return oracle_gradient_stack(run, dict(F18_INPUT))
+
+
+def known_probes(run):
+    """K22 (a leg of zero length has no direction) and K23 (degenerate path listed twice) on their recorded inputs"""
+    rt, im, LayeredIce, LayeredRayTracer = _mods()
+    with np.errstate(all="ignore"):
+        u = im.UniformIce(1.5, valid_range=(-100, 0), index_above=1, index_below=1.3)
+        t = rt.UniformRayTracer((0, 0, 0.0), (30, 40, -50), u)
+        t.max_reflections = 1
+        e = np.asarray(t.solutions[1].emitted_direction, float)
+        if abs(float(np.sqrt(np.sum(e ** 2))) - 1.0) > 1e-6:
+            run.known_finding("K22")
+        st = LayeredIce([im.UniformIce(1.4, valid_range=(-150, 0), index_above=None, index_below=None),
+                         im.UniformIce(1.7, valid_range=(-400, -150), index_above=None, index_below=None)], index_above=1)
+        ls = [float(p.path_length) for p in LayeredRayTracer((0, 0, -150.0), (100, 0, -150.0), st).solutions]
+        if len(ls) >= 2 and abs(ls[0] - ls[1]) < 1e-9:
+            run.known_finding("K23")
+    run.extra["K22_probe_emitted"] = e.tolist()
+    run.extra["K23_probe_lengths"] = ls
 
 
 def correspondence(run):
@@ -676,11 +739,23 @@ def oracle_uniform(run, rt, ice, A, B, maxref, kind):
     rho = math.hypot(B[0] - A[0], B[1] - A[1])
     if kind == "same":
         return
-    degenerate = kind == "boundary"      # a zero-length leg: directions are 0/0, everything else is still checked
     for (refl, up), p in zip(allowed, sols):
         d = dict(data, reflections=refl, initial_up=up)
         zi = mirror_image_z(B[2], lo, hi, refl, up)
         L = math.sqrt(rho ** 2 + (zi - A[2]) ** 2)
+        z_first, z_last = zero_legs(lo, hi, A[2], B[2], refl, up)
+        degenerate = z_first or z_last
+        if degenerate and run.finding_for("K22"):
+            run.known_finding("K22")
+        if refl and zi == A[2]:
+            # both endpoints on the bound the path heads to: no vertical extent at all; the path object must refuse
+            try:
+                p._points
+                run.fail_input("uniform-empty-path", d, observed=np.asarray(p._points, float).tolist(),
+                               what="a reflected path without vertical extent does not raise ValueError")
+                return
+            except ValueError:
+                continue
         pts = np.asarray(p._points, float)
         scale = max(1.0, abs(A[0]), abs(A[1]), abs(B[0]), abs(B[1]))
         if refl and ((zi > A[2]) != up):
@@ -705,7 +780,7 @@ def oracle_uniform(run, rt, ice, A, B, maxref, kind):
                 run.fail_input("uniform-boundary", d, observed=pts.tolist(), expected="reflection %d on %s" % (k, "hi" if going_up else "lo"),
                                what="reflection point is not on the ice boundary the ray is heading to")
                 return
-        if L > 0 and not degenerate:
+        if L > 0 and not (degenerate and run.finding_for("K22")):
             e = np.array([B[0] - A[0], B[1] - A[1], zi - A[2]]) / L
             rcv = e * np.array([1, 1, (-1) ** refl])
             if np.max(np.abs(np.asarray(p.emitted_direction, float) - e)) > 1e-8 + 1e-12 * scale / max(L, 1e-3) or \
@@ -887,6 +962,21 @@ def special_split(run, which):
     """cut media whose unsplit solutions have launch angles within a degree of a validity cut-off of the index path"""
     rt, im, LayeredIce, LayeredRayTracer = _mods()
     r = run.rng
+    if which in ("identical", "on-cut-level"):
+        # class of finding K23: identical endpoints (uniform or exponential medium) / both endpoints on one cut
+        if which == "identical" and r.random() < 0.5:
+            z = -r.uniform(30, 600)
+            cuts = sorted({round(z + r.uniform(20, 80), 3), round(z - r.uniform(20, 200), 3)}, reverse=True)
+            cuts = [c for c in cuts if c < -1]
+            P = [r.uniform(-300, 300), r.uniform(-300, 300), z]
+            return {"kind": "antarctic", "params": {"cuts": cuts, "cls": "AntarcticIce"}, "A": P, "B": list(P), "special": which}
+        n, lo = r.uniform(1.3, 1.9), -r.uniform(400, 2500)
+        z = round(r.uniform(lo * 0.8, -30), 3)
+        cuts = sorted({z if which == "on-cut-level" else round(z - 25.0, 3), round(r.uniform(lo * 0.95, -2), 3)}, reverse=True)
+        A = [r.uniform(-300, 300), r.uniform(-300, 300), z]
+        B = list(A) if which == "identical" else [A[0] + r.uniform(20, 400), A[1] + r.uniform(-200, 200), z]
+        return {"kind": "uniform", "params": {"n": n, "lo": lo, "above": 1, "below": None, "cuts": cuts}, "A": A, "B": B,
+                "special": which, "max_reflections": r.choice([0, 1])}
     if which in ("vertical", "near-vertical"):
         # identical x, y (rho == 0 exactly) or rho = 1e-12 .. 1e-6 m; receiver below or above the source; cuts between and
         # beside the endpoints
@@ -1197,6 +1287,19 @@ def oracle_potential(run, seq=None):
 def oracle_enumeration(run, deep):
     rt, im, LayeredIce, LayeredRayTracer = _mods()
     from pyrex.internal_functions import flatten
+    # outside its domain (level > max_level; never requested by _potential_paths) the recursion does not end: the model
+    # returns no path, the implementation must not return one either
+    import sys
+    limit = sys.getrecursionlimit()
+    try:
+        sys.setrecursionlimit(300)
+        out = LayeredRayTracer._build_path((3,), 1, 1, 2)
+        run.fail_input("build-path", {"max_level": 2, "start": 3, "direction": 1, "reflections": 1}, observed=str(out)[:200],
+                       what="_build_path returns paths for a start level beyond max_level")
+    except RecursionError:
+        pass
+    finally:
+        sys.setrecursionlimit(limit)
     for m in range(0, 4 if not deep else 6):
         for s in range(0, m + 1):
             for down in (False, True):
@@ -1231,7 +1334,7 @@ def search(run, deep):
             form = run.rng.choice(INT_FORMS)
             A, B = as_form(A, form), as_form(B, form)
             A, B = (A.tolist() if hasattr(A, "tolist") else list(A)), (B.tolist() if hasattr(B, "tolist") else list(B))
-        maxref = run.rng.choice([0, 1, 2, 3])
+        maxref = run.rng.choice([0, 1, 2, 3, 3, 5])
         run.case(("oracle-uniform", kind, ice.n, ice.valid_range, tuple(A), tuple(B), maxref), nontrivial=maxref > 0)
         with np.errstate(all="ignore"):
             oracle_uniform(run, rt, ice, A, B, maxref, kind)
@@ -1263,7 +1366,7 @@ def search(run, deep):
     # completeness next to the cut-offs of the launch-angle search: within a degree of horizontal, of the shadow edge
     # (unsplit tracer as reference) and of a critical angle (forward Snell construction as reference)
     for which, m in (("horizontal", 6), ("level", 2), ("horizontal-reflected", 3), ("shadow-edge", 6), ("vertical", 8),
-                     ("near-vertical", 4)):
+                     ("near-vertical", 4), ("identical", 3), ("on-cut-level", 3)):
         for i in range(m if not deep else 10 * m):
             run.count("complete_" + which)
             check_split(run, None, report, data=special_split(run, which))
